@@ -175,7 +175,11 @@ def check(args):
     core.run_batch(_seed_task, seeds, timeout=60.0, deadline=deadline, on_result=on_result)
     t_explore = time.time() - t1
     # ---- triage: minimise and confirm one example per signature
-    for sig, (seed, out) in sorted(first_by_sig.items())[:8]:
+    listed = {sig: so for sig, so in first_by_sig.items() if report.match_known(sig) is not None}
+    for sig in sorted(listed):
+        report.add(sig, "-", f"recorded finding, first seen with seed {listed[sig][0]}")  # nothing to shrink or confirm again
+    unlisted = sorted((sig, so) for sig, so in first_by_sig.items() if sig not in listed)
+    for sig, (seed, out) in unlisted[:8]:
         spec = explicit_spec(c19.gen_spec(seed), out)
         if sig[0] == "no_progress":
             solo, err = run_solo(dict(spec, step_cap=30_000_000), timeout=400.0)
@@ -192,8 +196,10 @@ def check(args):
                 report.harness_errors.append(f"seed {seed}: violation {sig} {err2}")
                 continue
         report.add(sig, path, summarize(v) + f" [seed {seed}, {len(small['threads'])} threads, {len(small['schedule']['switches'])} pre-emptions, {trials} shrink trials]")
-    for sig in sorted(first_by_sig)[8:]:
-        report.harness_errors.append(f"more than 8 distinct violation signatures; not triaged: {sig}")
+    for sig, (seed, out) in unlisted[8:]:
+        # still a violation: reported with the seed that shows it, without a minimised replay
+        path = core.write_replay(PROP, f"{seed}-{core.digest(list(sig))}-untriaged", {"property": PROP, "seed": seed, "sig": list(sig), "note": "more than 8 distinct signatures in this run; replay by seed"})
+        report.add(sig, path, f"{sig} [seed {seed}, not minimised]")
     wall = time.time() - t0
     if not args.no_evidence:
         samples_full = []
